@@ -15,8 +15,10 @@ import (
 
 // otPairCase runs `sender`/`receiver` (any ot.OT implementation) through
 // the batches over a fresh transport and applies the delivery oracle.
+var protoBufRot = []string{"fresh", "random", "kept", "ones"}
+
 func otPairCase(o *hxlib.Out, impl string, idx int, replay, cfg, transport string, snd, rcv ot.OT, r *hxlib.Rng,
-	sizes []int, rot bool, timeout time.Duration) {
+	sizes []int, rot bool, timeout time.Duration, bufRot int) {
 
 	l := newLink(transport)
 	defer l.close()
@@ -27,39 +29,38 @@ func otPairCase(o *hxlib.Out, impl string, idx int, replay, cfg, transport strin
 		wires []ot.Wire
 		rcvd  []ot.Label
 		out   []ot.Label // the slice handed to Receive
+		fill  []byte     // what the whole array is overwritten with before the batch (nil: nothing)
 		bufcl string
 	}
 	bs := make([]br, len(sizes))
-	// the receiver's result buffers (oracle only, no model): fresh, the array
-	// of the previous batch, or a window of a new array of ones / random bytes
-	var prev []ot.Label
+	// the receiver's result buffers (oracle only, no model): one array per
+	// case, as long as the longest batch needs plus a little; batch i gets the
+	// class protoBufRot[(bufRot+i)%4] - planned, so that every class is reached
+	// for every seed: a fresh slice, or a window of the array overwritten
+	// first with random bytes / ones, or kept as the earlier batches left it
+	maxN := 0
+	for _, n := range sizes {
+		if n > maxN {
+			maxN = n
+		}
+	}
+	arena := make([]ot.Label, maxN+r.Intn(4))
 	for i, n := range sizes {
 		bs[i].flags, bs[i].ck = genChoices(r, n)
 		bs[i].in = genWires(r, n)
-		switch k := r.Intn(6); {
-		case k < 2:
-			bs[i].out, bs[i].bufcl = make([]ot.Label, n), "fresh"
-		case k == 2 && len(prev) >= n:
-			bs[i].out, bs[i].bufcl = prev[len(prev)-n:], "kept"
-		default:
-			a := make([]ot.Label, n+r.Intn(4))
-			fill := r.Bytes(16 * len(a))
-			bs[i].bufcl = "random"
-			if k == 3 {
-				bs[i].bufcl = "ones"
-				for j := range fill {
-					fill[j] = 0xff
+		bs[i].bufcl = protoBufRot[(bufRot+i)%len(protoBufRot)]
+		off := r.Intn(len(arena) - n + 1)
+		bs[i].out = arena[off : off+n]
+		switch bs[i].bufcl {
+		case "fresh":
+			bs[i].out = make([]ot.Label, n)
+		case "random", "ones":
+			bs[i].fill = r.Bytes(16 * len(arena))
+			if bs[i].bufcl == "ones" {
+				for j := range bs[i].fill {
+					bs[i].fill[j] = 0xff
 				}
 			}
-			for j := range a {
-				a[j].SetBytes(fill[16*j : 16*j+16])
-			}
-			off := r.Intn(len(a) - n + 1)
-			bs[i].out = a[off : off+n]
-			prev = a
-		}
-		if bs[i].bufcl == "fresh" {
-			prev = bs[i].out
 		}
 	}
 	fs := func() error {
@@ -81,6 +82,11 @@ func otPairCase(o *hxlib.Out, impl string, idx int, replay, cfg, transport strin
 		}
 		for i := range bs {
 			out := bs[i].out
+			if bs[i].fill != nil {
+				for j := range arena {
+					arena[j].SetBytes(bs[i].fill[16*j : 16*j+16])
+				}
+			}
 			if err := rcv.Receive(bs[i].flags, out); err != nil {
 				return fmt.Errorf("batch %d Receive: %v", i, err)
 			}
@@ -301,6 +307,9 @@ func protoMode(args []string) int {
 		}
 		var sizes []int
 		nb := 1 + r.Intn(3)
+		if c%2 == 1 && nb < 2 {
+			nb = 2 // planned: every other case has a second batch (result buffer kept from the first)
+		}
 		for j := 0; j < nb; j++ {
 			n := smallN(r, 65)
 			if j == 0 && c%5 == 4 {
@@ -311,7 +320,7 @@ func protoMode(args []string) int {
 			}
 			sizes = append(sizes, n)
 		}
-		otPairCase(o, "co", i, rp, "impl=CO", transports[r.Intn(2)], ot.NewCO(r.Fork()), ot.NewCO(r.Fork()), r, sizes, false, 60*time.Second)
+		otPairCase(o, "co", i, rp, "impl=CO", transports[r.Intn(2)], ot.NewCO(r.Fork()), ot.NewCO(r.Fork()), r, sizes, false, 60*time.Second, c)
 	}
 	// --- CO helpers
 	curves := []elliptic.Curve{elliptic.P256(), elliptic.P256(), elliptic.P256(), elliptic.P224(), elliptic.P384(), elliptic.P521()}
@@ -360,7 +369,7 @@ func protoMode(args []string) int {
 			sizes = append(sizes, n)
 		}
 		otPairCase(o, "rsa", i, rp, fmt.Sprintf("impl=RSA-%d", bits), transports[r.Intn(2)],
-			ot.NewRSA(rand.Reader, bits), ot.NewRSA(rand.Reader, bits), r, sizes, false, 120*time.Second)
+			ot.NewRSA(rand.Reader, bits), ot.NewRSA(rand.Reader, bits), r, sizes, false, 120*time.Second, c+1)
 	}
 	// --- RSA single-transfer API
 	{
@@ -408,7 +417,7 @@ func protoMode(args []string) int {
 			sizes = append(sizes, genN(r, 4*512))
 		}
 		otPairCase(o, impl+"_over_"+base, i, rp, fmt.Sprintf("impl=%s base=%s mal=%v shared=%v", impl, base, mal, shared),
-			transports[r.Intn(2)], snd, rcv, r, sizes, rot, 120*time.Second)
+			transports[r.Intn(2)], snd, rcv, r, sizes, rot, 120*time.Second, c/2)
 		o.Count(fmt.Sprintf("proto_%s_mal_%v", impl, mal))
 	}
 	// --- probe (recorded, not judged): COT over an RSA base OT.  COT.InitReceiver
